@@ -290,7 +290,15 @@ class Runner:
 
     # ------------------------------------------------------------------ replay
     def inputs_of(self, eng):
-        return {name: (sv.s if sv.s is not None else sv.e) for name, (sv, kind) in eng.inputs.items()}
+        d = {name: (sv.s if sv.s is not None else sv.e) for name, (sv, kind) in eng.inputs.items()}
+        ang = getattr(eng, "_angles", None)
+        if ang:
+            for name in eng.inputs:
+                a = ang["atoms"].get(name)
+                if a is not None:
+                    d["\0sin:" + name] = a.S
+                    d["\0cos:" + name] = a.C
+        return d
 
     def concretise(self, eng, model):
         out = {}
@@ -298,6 +306,20 @@ class Runner:
             v = model.get(name, 0)
             if kind in ("f64", "f32"):
                 v = float(v)
+                if ("\0sin:" + name) in model:
+                    # angle atoms: the solver constrains (sin, cos), not the angle itself
+                    import math as _m
+                    ang = _m.atan2(float(model["\0sin:" + name]), float(model["\0cos:" + name]))
+                    a = eng._angles["atoms"][name]
+                    lo = a.lo if a.lo is not None else -_m.pi
+                    hi = a.hi if a.hi is not None else _m.pi
+                    k = round((v - ang) / (2 * _m.pi))
+                    cand = ang + 2 * _m.pi * k
+                    for c in (cand, ang, ang + 2 * _m.pi, ang - 2 * _m.pi):
+                        if lo - 1e-12 <= c <= hi + 1e-12:
+                            cand = c
+                            break
+                    v = min(max(cand, lo), hi) if lo <= hi else cand
                 if kind == "f32":
                     v = interp.f32round(v)
             else:
